@@ -11,7 +11,11 @@ import random
 
 from vf import core
 
-XF = ("off", "true", "ident", "double", "swallow", "atend")
+# what the addon assigns to message.stream: nothing, True, or a callable returning bytes (ident, double, swallow,
+# atend), or a one-shot iterator (gen = identity, dblgen = doubling, both as generators); atend_list (random driver)
+# returns lists
+XF = ("off", "true", "ident", "double", "swallow", "atend", "gen", "dblgen")
+XF_QUICK = ("off", "true", "double", "swallow", "atend", "gen", "dblgen")
 MODE = {"state_uninitialized": "none", "state_wait_for_request_headers": "wait",
         "state_wait_for_response_headers": "wait", "state_consume_request_body": "consume",
         "state_consume_response_body": "consume", "state_stream_request_body": "stream",
@@ -41,6 +45,16 @@ def make_callable(kind: str):
             return out
 
         return f
+    if kind in ("gen", "dblgen"):  # a generator: a one-shot iterable, several pieces per data event
+        def h(d, twice=(kind == "dblgen")):
+            if twice:
+                d = bytes(x for b in d for x in (b, b))
+            m = len(d) // 2
+            for part in (d[:m], d[m:]):
+                if part:
+                    yield part
+
+        return h
     if kind == "atend_list":  # random driver only: like atend, but an empty *list* while holding back
         held2 = []
 
@@ -344,7 +358,7 @@ class Check(core.PropertyCheck):
     MON = "Mon_HttpBody"
     REQUIRED_WITNESSES = ("limit_set", "threshold_set", "store", "declared_over_limit", "chunked", "streaming",
                           "buffered_over_limit", "late_switch", "stored_while_streaming", "known_excess",
-                          "streamed_complete", "kept_with_store", "stream_double", "stream_atend", "stream_swallow",
+                          "streamed_complete", "kept_with_store", "stream_double", "stream_atend", "stream_swallow", "stream_gen", "stream_dblgen",
                           "end")
     REQUIRED_ACTIONS = ()  # checked over the union of the per-direction model runs (ALL_ACTIONS, model_runs)
     ALL_ACTIONS = ("Start", "ReqHead", "ReqChunk", "ReqEnd", "RespHead", "RespChunk", "RespEnd", "Finish")
@@ -374,8 +388,8 @@ class Check(core.PropertyCheck):
 
     def _model_constants(self, tier):
         if tier == "quick":
-            return self._consts(frozenset({0, 2, 5}), frozenset({0}), XF, ("off",), 4, pf=("cl",)), \
-                   self._consts(frozenset({0}), frozenset({0, 2, 5}), ("off",), XF, 4, rf=("cl",))
+            return self._consts(frozenset({0, 2, 5}), frozenset({0}), XF_QUICK, ("off",), 4, pf=("cl",)), \
+                   self._consts(frozenset({0}), frozenset({0, 2, 5}), ("off",), XF_QUICK, 4, rf=("cl",))
         return self._consts(frozenset({0, 1, 3, 4, 6}), frozenset({0}), XF, ("off",), 6, pf=("cl",)), \
                self._consts(frozenset({0}), frozenset({0, 1, 3, 4, 6}), ("off",), XF, 6, rf=("cl",))
 
